@@ -106,13 +106,13 @@ func (p *parrot) coq() string {
 
 var allSuites []uint16
 
-func serverCoq(kind int, notAfter int64, suites []uint16) string {
+func serverCoq(kind, epoch int, notAfter int64, suites []uint16) string {
 	vers := map[int]string{srv12: "[771]", srv13: "[772]", srv13hrr: "[772]", srvBoth: "[772; 771]"}[kind]
 	groups := "[4588; 29; 23; 24; 25]"
 	if kind == srv13hrr {
 		groups = "[24]"
 	}
-	return fmt.Sprintf("(mkServer 7 %s %s %s %d [1; 2; 3; 4; 5; 6])", vers, u16list(suites), groups, notAfter)
+	return fmt.Sprintf("(mkServer %d %s %s %s %d [1; 2; 3; 4; 5; 6])", 7+epoch, vers, u16list(suites), groups, notAfter)
 }
 
 // ---------- observation -> seen ----------
@@ -127,8 +127,14 @@ func classOf(o *connObs) int {
 		return 2
 	case strings.Contains(o.Srv.err, "extended_master_secret but client does not"):
 		return 3
+	case strings.Contains(o.Srv.err, "invalid PSK binder"):
+		return 7
 	case strings.Contains(o.Srv.err, "unsupported versions") || strings.Contains(o.Srv.err, "protocol version"):
 		return 4
+	case o.BadOffered && o.CliErr != "" && len(o.Srv.hellos) > 0 && len(o.Srv.hellos[0].Ticket) > 0 && !o.Srv.hellos[0].HasPSK && o.CliPanic == "" && !strings.Contains(o.CliErr, "certificate"):
+		// TLS 1.2 resumption with a corrupted master secret: the server resumes from its own copy, the client cannot
+		// read its Finished
+		return 8
 	case o.CliErr == "" && o.SrvSeen && o.Srv.err == "":
 		return 0
 	}
@@ -377,21 +383,44 @@ func run(c *vh.Ctx) {
 		}
 	}
 	for _, p := range customs {
+		interesting := strings.Contains(p.Name, "-ems") || strings.Contains(p.Name, "-tkt") || strings.Contains(p.Name, "PSK")
 		for _, k := range []int{srv12, srv13} {
-			if k == srv13 && !p.Max13 {
+			if k == srv13 && (!p.Max13 || (c.Tier == "quick" && !strings.Contains(p.Name, "PSK"))) {
 				continue
 			}
 			hists = append(hists, []connPlan{mk(p, 0, k, hour), mk(p, 0, k, hour), mk(p, 0, k, hour)})
 		}
 		// a session stored by a stock client, then this custom client, and back
 		for _, a := range pick("Chrome_100", "Golang", "Chrome_100_PSK") {
-			if c.Tier == "quick" && a.Name == "Chrome_100_PSK" && !strings.Contains(p.Name, "PSK") {
+			if c.Tier == "quick" && (!interesting || (a.Name == "Chrome_100_PSK" && !strings.Contains(p.Name, "PSK"))) {
 				continue
 			}
 			hists = append(hists, []connPlan{mk(a, 0, srv12, hour), mk(p, 0, srv12, hour), mk(p, 0, srv12, hour), mk(a, 0, srv12, hour)})
 			if c.Tier != "quick" || strings.Contains(p.Name, "PSK") {
 				hists = append(hists, []connPlan{mk(a, 0, srv13, hour), mk(p, 0, srv13, hour), mk(p, 0, srv13, hour), mk(a, 0, srv13, hour)})
 			}
+		}
+	}
+	// corpus 7: the multi-step use on the resuming connection (explicit BuildHandshakeState, an edit that keeps the hello
+	// length, Handshake), and servers that rotate their ticket key in the middle of a history
+	for _, p := range pick("Chrome_100_PSK", "Chrome_115_PQ_PSK", "Golang", "Chrome_100", "Custom(Chrome_100_PSK)", "Firefox_120") {
+		for _, k := range []int{srv13, srv12} {
+			h := []connPlan{mk(p, 0, k, hour), mk(p, 0, k, hour), mk(p, 0, k, hour), mk(p, 0, k, hour), mk(p, 0, k, hour)}
+			h[1].Prep, h[2].Prep, h[3].Prep = 1, 2, 3
+			hists = append(hists, h)
+			g := []connPlan{mk(p, 0, k, hour), mk(p, 0, k, hour), mk(p, 0, k, hour), mk(p, 0, k, hour)}
+			g[2].Rotate = true
+			g[3].Prep = 2
+			hists = append(hists, g)
+		}
+	}
+	// corpus 8: a resumption attempt that fails for a reason outside the client (the cached secret is not the ticket's):
+	// the entry is evicted, the next connection is a full handshake, the one after resumes again
+	for _, p := range pick("Chrome_100_PSK", "Golang", "Chrome_100", "Firefox_120", "Custom(Chrome_100_PSK)") {
+		for _, k := range []int{srv13, srv12} {
+			h := []connPlan{mk(p, 0, k, hour), mk(p, 0, k, hour), mk(p, 0, k, hour), mk(p, 0, k, hour)}
+			h[1].Tamper = true
+			hists = append(hists, h)
 		}
 	}
 	ncorpus := len(hists)
@@ -441,6 +470,15 @@ func run(c *vh.Ctx) {
 			if c.Rng.Intn(4) == 0 {
 				pl.WrapPSK = true
 			}
+			if c.Rng.Intn(5) == 0 {
+				pl.Prep = 1 + c.Rng.Intn(3)
+			}
+			if c.Rng.Intn(10) == 0 {
+				pl.Rotate = true
+			}
+			if c.Rng.Intn(10) == 0 {
+				pl.Tamper = true
+			}
 			h = append(h, pl)
 		}
 		hists = append(hists, h)
@@ -464,6 +502,7 @@ func run(c *vh.Ctx) {
 	wg.Wait()
 
 	nconn, nres := 0, 0
+	var class5 []string
 	for hi, r := range results {
 		if r.err != "" {
 			c.Fail("runner/world", "could not set up the servers: "+r.err, nil, nil, nil)
@@ -473,7 +512,7 @@ func run(c *vh.Ctx) {
 		var keyb strings.Builder
 		var spTab, svTab []string // tables of the distinct specs / servers of this history
 		spIdx := map[*parrot]int{}
-		svIdx := map[int]int{}
+		svIdx := map[[2]int]int{} // (server kind, ticket key epoch)
 		// every session the client ever put into the cache, by ticket: which server name it was negotiated with
 		// (Config.ServerName as configured; "@address" without one) and by which parrot
 		type origin struct {
@@ -481,6 +520,7 @@ func run(c *vh.Ctx) {
 			info             tls.VerifC19Session
 		}
 		origins := map[string]origin{}
+		failedTickets := map[string]bool{}
 		// to keep the case terms small: the server's suite list is cut down to the suites that occur in this history
 		// (every one of them is in the server's real list), the cache is compared on the keys this history can touch
 		var srvSuites []uint16
@@ -518,6 +558,19 @@ func run(c *vh.Ctx) {
 		}
 		nontrivial := false
 		elapsed := time.Duration(0)
+		// which connections offered a session the test had corrupted (by ticket bytes)
+		{
+			corrupted := map[string]bool{}
+			for j := range r.obs {
+				o := &r.obs[j]
+				if o.Tampered {
+					corrupted[string(o.TamperedTicket)] = true
+				}
+				if code, label := offerOf(o); code != 0 && label != nil && corrupted[string(label)] {
+					o.BadOffered = true
+				}
+			}
+		}
 		for j := range r.obs {
 			o := &r.obs[j]
 			pl := r.plans[j]
@@ -525,6 +578,9 @@ func run(c *vh.Ctx) {
 			nconn++
 			elapsed += pl.Advance
 			cls := classOf(o)
+			if cls == 5 && len(class5) < 8 {
+				class5 = append(class5, fmt.Sprintf("%s/%s: %s%s / %s", p.Name, srvKindName[pl.Srv], o.CliErr, o.CliPanic, o.Srv.err))
+			}
 			code, label := offerOf(o)
 			if code != 0 {
 				nontrivial = true
@@ -534,7 +590,7 @@ func run(c *vh.Ctx) {
 			}
 			pl = o.Plan // connect() turns verification off for a connection without ServerName
 			name := o.Identity
-			input := map[string]any{"history": hi, "conn": j, "parrots": planNames(r.plans), "servers": planSrvs(r.plans),
+			input := map[string]any{"history": hi, "conn": j, "prep": planPrep(r.plans), "rotate_key": planRotate(r.plans), "tamper": planTamper(r.plans), "parrots": planNames(r.plans), "servers": planSrvs(r.plans),
 				"names": planNameIdx(r.plans), "advance_s": planAdv(r.plans), "omit_empty_psk": pl.OmitEmpty, "seed": c.Seed}
 
 			// ----- Go-side oracle, from the property text -----
@@ -546,7 +602,8 @@ func run(c *vh.Ctx) {
 					c.Fail("psk-not-last/"+p.Name, "pre_shared_key is not the last extension", input, h.ExtOrder, "41 last")
 				}
 			}
-			if strings.Contains(o.Srv.err, "invalid PSK binder") {
+			badCache := o.BadOffered // the offered session is one the test corrupted: its failure is the test's doing
+			if strings.Contains(o.Srv.err, "invalid PSK binder") && !badCache {
 				c.Fail("binder-invalid/"+p.Name, "the server rejected the PSK binder", input, o.Srv.err, "binder verifies")
 			}
 			if o.LenSeen && o.LenPre != o.LenPost {
@@ -554,6 +611,13 @@ func run(c *vh.Ctx) {
 			}
 			if strings.Contains(o.CliPanic, "uApplyPatch") {
 				c.Fail("binder-len/"+p.Name, "uApplyPatch length assertion fired", input, o.CliPanic, "no panic")
+			}
+			// a session whose resumption failed must be thrown away (RFC 5077 3.2), never offered again
+			if code != 0 && label != nil && failedTickets[string(label)] {
+				c.Fail("stale-session/"+p.Name, "a session whose resumption attempt had failed was offered again", input, len(label), "evicted")
+			}
+			if code != 0 && label != nil && cls != 0 {
+				failedTickets[string(label)] = true
 			}
 			var offered *origin
 			if code != 0 && label != nil {
@@ -583,8 +647,14 @@ func run(c *vh.Ctx) {
 				po := &r.obs[j-1]
 				pp := r.plans[j-1]
 				prevOK := classOf(po) == 0
-				same := pp.P == p && pp.Name == pl.Name && pp.Srv == pl.Srv && pp.SkipVerify == pl.SkipVerify && pp.OmitEmpty == pl.OmitEmpty
-				if prevOK && cls != 0 && cls != 3 && !emsDown {
+				// same server configuration: a rotated ticket key is a different one
+				same := pp.P == p && pp.Name == pl.Name && pp.Srv == pl.Srv && pp.SkipVerify == pl.SkipVerify && pp.OmitEmpty == pl.OmitEmpty && !pl.Rotate
+				// after a resumption that failed on a corrupted entry the entry must be gone: this connection completes
+				if po.BadOffered && classOf(po) != 0 && pp.Name == pl.Name && pp.Srv == pl.Srv && !pl.Tamper && cls != 0 && cls != 4 && !(cls == 1 && !pl.OmitEmpty) {
+					c.Fail("stuck/"+p.Name+"/"+srvKindName[pl.Srv], "the connection after a failed resumption failed as well: "+o.CliErr+o.CliPanic+" / "+o.Srv.err, input,
+						map[string]any{"client_err": o.CliErr, "panic": o.CliPanic, "server_err": o.Srv.err}, "bad session evicted, full handshake completes")
+				}
+				if prevOK && cls != 0 && cls != 3 && !emsDown && !badCache {
 					key := "broken/" + p.Name + "/" + srvKindName[pl.Srv]
 					exempt := cls == 4 || (cls == 1 && !pl.OmitEmpty) // no common version; documented: PSK spec needs OmitEmptyPsk
 					if cls == 2 {
@@ -595,7 +665,7 @@ func run(c *vh.Ctx) {
 							map[string]any{"client_err": o.CliErr, "panic": o.CliPanic, "server_err": o.Srv.err}, "handshake completes")
 					}
 				}
-				if prevOK && same && elapsed <= 6*day && cls == 0 {
+				if prevOK && same && elapsed <= 6*day && cls == 0 && !o.BadOffered {
 					can := (po.CliVers == tls.VersionTLS12 && p.HasTicket) || (po.CliVers == tls.VersionTLS13 && p.HasPSK && p.HasModes)
 					if !can {
 						c.Count("exempt-no-extension")
@@ -637,14 +707,15 @@ func run(c *vh.Ctx) {
 				spIdx[p] = len(spTab)
 				spTab = append(spTab, p.coq())
 			}
-			if _, ok := svIdx[pl.Srv]; !ok {
-				svIdx[pl.Srv] = len(svTab)
-				svTab = append(svTab, serverCoq(pl.Srv, notAfter, srvSuites))
+			svk := [2]int{pl.Srv, o.Epoch}
+			if _, ok := svIdx[svk]; !ok {
+				svIdx[svk] = len(svTab)
+				svTab = append(svTab, serverCoq(pl.Srv, o.Epoch, notAfter, srvSuites))
 			}
-			items = append(items, fmt.Sprintf("(mkRef %d %d %d %d %d %s %s %d %d, mkSeen %d %s %d %s %s %s)",
-				spIdx[p], svIdx[pl.Srv], nameID(pl.Name), addrID(pl.Srv), o.Now, vh.Bool(pl.OmitEmpty), vh.Bool(pl.SkipVerify), suite, tlen,
-				cls, vh.Bool(o.CliResumed), code, vh.Bool(helloEMS), vh.Bool(o.CliHRRSeen), vh.List(cacheItems)))
-			fmt.Fprintf(&keyb, "%s/%d/%d/%d/%v/%v;", p.Name, pl.Name, pl.Srv, pl.Advance/time.Second, pl.OmitEmpty, pl.SkipVerify)
+			items = append(items, fmt.Sprintf("(mkRef %d %d %d %d %d %s %s %d %d, mkSeen %s %d %s %d %s %s %s)",
+				spIdx[p], svIdx[svk], nameID(pl.Name), addrID(pl.Srv), o.Now, vh.Bool(pl.OmitEmpty), vh.Bool(pl.SkipVerify), suite, tlen,
+				vh.Bool(o.Tampered), cls, vh.Bool(o.CliResumed), code, vh.Bool(helloEMS), vh.Bool(o.CliHRRSeen), vh.List(cacheItems)))
+			fmt.Fprintf(&keyb, "%s/%d/%d/%d/%v/%v/%d/%v/%v;", p.Name, pl.Name, pl.Srv, pl.Advance/time.Second, pl.OmitEmpty, pl.SkipVerify, pl.Prep, pl.Rotate, pl.Tamper)
 
 			// PSK extension length accounting
 			if len(o.Srv.hellos) > 0 && o.Srv.hellos[0].HasPSK {
@@ -678,6 +749,7 @@ func run(c *vh.Ctx) {
 		}
 		c.Case("history", "(CHistT "+vh.List(spTab)+" "+vh.List(svTab)+" "+vh.List(items)+")", keyb.String(), nontrivial, sample)
 	}
+	c.Extra["other_error_samples"] = class5
 	c.Extra["connections"] = nconn
 	c.Extra["resumed_connections"] = nres
 }
@@ -737,6 +809,27 @@ func planNameIdx(ps []connPlan) []string {
 	r := make([]string, len(ps))
 	for i, p := range ps {
 		r[i] = serverNames[p.Name]
+	}
+	return r
+}
+func planPrep(ps []connPlan) []int {
+	r := make([]int, len(ps))
+	for i, p := range ps {
+		r[i] = p.Prep
+	}
+	return r
+}
+func planTamper(ps []connPlan) []bool {
+	r := make([]bool, len(ps))
+	for i, p := range ps {
+		r[i] = p.Tamper
+	}
+	return r
+}
+func planRotate(ps []connPlan) []bool {
+	r := make([]bool, len(ps))
+	for i, p := range ps {
+		r[i] = p.Rotate
 	}
 	return r
 }
